@@ -10,6 +10,8 @@ extern "C" int gettimeofday(struct timeval *tv, void *) noexcept { tv->tv_sec = 
 #include "alarm/alarm.cpp"
 #include "alarm/oneshot_alarm.cpp"
 #include "alarm/weekly_alarm.cpp"
+#include "alarm/workday_alarm.cpp"
+#include "alarm/workday_calendar.cpp"
 using namespace tbox;
 #ifndef MAXDELTA
 #define MAXDELTA 34560000u                           /* 400 days */
@@ -98,4 +100,38 @@ extern "C" void h_weekly_init() {
     VP_ASSERT(!a.initialize(86400, m2) && !a.initialize(-1, m2) && !a.initialize(s2, "101"), "invalid configurations are rejected");
     VP_ASSERT(a.week_mask_ == want && a.seconds_of_day_ == s2, "a rejected initialize() leaves the configuration unchanged");
     VP_REACH("weekly_init");
+}
+
+// workday calendar <-> alarms: after any sequence of enable/disable on several alarms sharing one calendar, a calendar update re-arms
+// every alarm that is still enabled (and only those) for the instant a freshly enabled alarm with the same configuration gets
+#ifndef NWA
+#define NWA 3
+#endif
+struct ProbeWA : alarm::WorkdayAlarm { using WorkdayAlarm::WorkdayAlarm; int calcs = 0;
+    bool calculateNextLocalTimeSec(uint32_t cur, uint32_t &next) override { calcs++; return WorkdayAlarm::calculateNextLocalTimeSec(cur, next); } };
+extern "C" void h_workday_calendar() {
+    vpf::FakeLoop loop; alarm::WorkdayCalendar cal;
+    cal.updateWeekMask(0x3e);                                     // Monday..Friday
+    g_sec = 1700000000ul; g_usec = 0;                             // a fixed instant (Tuesday): the subject is the subscription bookkeeping
+    ProbeWA *a[NWA]; bool en[NWA];
+    for (int i = 0; i < NWA; i++) { a[i] = new ProbeWA(&loop); a[i]->setTimezone(0); VP_ASSERT(a[i]->initialize(3600 * (i + 1), &cal, (i & 1) == 0), "initialize"); en[i] = false; }
+    for (int step = 0; step < 4; step++) {
+        unsigned w = nondet_uchar(); VP_ASSUME(w < NWA); w = (unsigned)vp_concretize(w);
+        if (en[w]) { VP_ASSERT(a[w]->disable(), "disable"); en[w] = false; } else { VP_ASSERT(a[w]->enable(), "enable"); en[w] = true; }
+    }
+    int before[NWA]; for (int i = 0; i < NWA; i++) before[i] = a[i]->calcs;
+    bool by_mask = nondet_bool();
+    if (by_mask) cal.updateWeekMask(0x41);                        // now only Saturday and Sunday are workdays
+    else { std::map<int, bool> sp; for (int d = 19675; d < 19690; d++) sp[d] = (d & 1); cal.updateSpecialDays(sp); }
+    for (int i = 0; i < NWA; i++) {
+        VP_ASSERT((a[i]->calcs > before[i]) == en[i], "a calendar update re-evaluates exactly the alarms that are enabled at that moment");
+        if (en[i]) {
+            ProbeWA fresh(&loop); fresh.setTimezone(0); fresh.initialize(3600 * (i + 1), &cal, (i & 1) == 0);
+            VP_ASSERT(fresh.enable(), "fresh enable");
+            VP_ASSERT(a[i]->target_utc_sec_ == fresh.target_utc_sec_, "after the update an enabled alarm is armed for the instant a freshly enabled alarm with the same configuration gets");
+            fresh.disable();
+        }
+    }
+    for (int i = 0; i < NWA; i++) delete a[i];
+    VP_REACH("workday_calendar");
 }
